@@ -481,7 +481,7 @@ func genC06(ctx *Ctx) {
 		}
 		return 0
 	}
-	for i := 0; i < ctx.Scale(2500, 200000); i++ {
+	for i := 0; i < ctx.Scale(2500, 60000); i++ {
 		g := &gen06{r: r, idem: true, plain: true}
 		q := g.statement()
 		if seen[q] {
@@ -559,7 +559,7 @@ func genC06(ctx *Ctx) {
 	// token-soup and raw bytes
 	frags := []string{"INSERT", "INTO", "t", "(", ")", "VALUES", "a", ",", "1", "'s'", "now", "uuid", "system", ".", "{", "}", "[", "]", ":", "?", "UPDATE", "SET", "=", "+", "-", "+=", "WHERE", "AND", "IF",
 		"DELETE", "FROM", "BEGIN", "BATCH", "APPLY", "USING", "TTL", "TIMESTAMP", ";", "IN", "<", ">", "json", "\"q\"", "0x1", "1.5", "token", "IS", "NOT", "NULL", "contains", "key", "like", "unlogged", "counter", "EXISTS"}
-	for i := 0; i < ctx.Scale(3000, 300000); i++ {
+	for i := 0; i < ctx.Scale(3000, 100000); i++ {
 		n := 1 + r.Intn(14)
 		var parts []string
 		for j := 0; j < n; j++ {
